@@ -22,15 +22,23 @@ TRUSTED = [
     "differential run: do_xref_cnt / do_ref_cnt of real objects at quiescent points = the model's counters",
     "the group word is kept abstract (value, HAS_NOTIFS); generation / HAS_WAITERS and the agreement between the concrete word and "
     "this abstraction are C07's subject: the global model admits a step only when the branch taken on the concrete word agrees",
-    "CLIENT CONTRACT, part 1 (reference discipline, Refcnt.call_guard — an enabling condition of the model): references are ghost "
-    "tokens; a call USES the object through a reference that exists and only borrows it (any number of threads may be inside calls "
-    "through the same reference); a release takes the reference it releases; while calls in progress borrow a reference of a level "
-    "(external / internal) the owners do not release the last reference of that level; a leave consumes an enter that has returned",
-    "CLIENT CONTRACT, part 2 (Refcnt.contract_r — an explicit hypothesis on every step of a run, restated by C17_contract_is; the model "
-    "itself does what C does beyond it: counters wrap, 'Too many nested calls' and 'deallocated while in use' go to the crash state): "
-    "fewer than 2^31-2 references of each level; fewer than 2^30-1 outstanding enters; at dispose the low word of dg_state is non-zero "
-    "only if the value or HAS_NOTIFS are (HAS_WAITERS is not left set on an empty group: a fact about the part of dg_state kept "
-    "abstract here, C07's subject)",
+    "CLIENT, part 1 (reference discipline, Refcnt.call_guard — an ENABLING CONDITION inside gstep: a call violating it is not a "
+    "step of the model, it is not modelled as a crash): references are ghost tokens; a call USES the object through a reference "
+    "that exists and only borrows it (any number of threads may be inside calls through the same reference); a release takes the "
+    "reference it releases; while calls in progress borrow a reference of a level (external / internal) the owners do not release "
+    "the last reference of that level; a leave consumes an enter that has returned.  EXCLUDED although legal in C: using a group "
+    "under an outstanding enter only, after the last external and internal reference are gone (dispatch_group_async from inside a "
+    "group block after dispatch_release): enter / notify / set_context / retain_weak need an external or internal reference to "
+    "borrow in the model; such clients are outside the theorems and are not exercised by the harness",
+    "CLIENT, part 2 (Refcnt.contract_r — an explicit hypothesis on every step of a run, restated by C17_contract_is; the model "
+    "itself does what C does beyond it: counters wrap, 'Too many nested calls' goes to the crash state): fewer than 2^31-2 "
+    "references of each level; fewer than 2^30-1 outstanding enters",
+    "ASSUMPTION ABOUT THE LIBRARY (also in contract_r; not a client obligation): at dispose the low word of dg_state is non-zero "
+    "only if the value or HAS_NOTIFS are, i.e. HAS_WAITERS is not left set on an empty group; generation, HAS_WAITERS and "
+    "dispatch_group_wait are not part of Model/Refcnt.v (C07's subject); when it fails the model takes the 'deallocated while in "
+    "use' crash as C does",
+    "trace conformance is per thread: Refcnt.tstep does not check the values read against a global state; there is no global "
+    "replay of recorded runs for C17",
     "atomicity: each os_atomic_* operation is one step; sequentially consistent interleaving (memory-order strength is tied to "
     "the source only through the site lists)",
     "serial lanes: the +2 protocol (push on an empty list / override push, wakeup CONSUME_2, worker's release after the drain) is "
@@ -47,7 +55,8 @@ TRUSTED = [
     "memory safety of the C code itself is validated (AddressSanitizer build in the thorough tier), not proved",
 ]
 ASSUMPTIONS = ["clients respect the reference discipline: no over-release, no use after the last release, the last reference of a level "
-               "is not released while calls in progress use the object through that level (sharing one reference between threads is fine)",
+               "is not released while calls in progress use the object through that level (sharing one reference between threads is fine); "
+               "clients that use a group under an outstanding enter only (no external / internal reference left) are NOT covered",
                "fewer than 2^31-2 simultaneous references of each level, fewer than 2^30-1 outstanding dispatch_group_enter",
                "HAS_WAITERS is not left set on an empty group at dispose (C07)"]
 
@@ -64,8 +73,8 @@ class GSim:
     def alive(self):
         return self.x > 0 or self.i > 0 or self.e > 0 or self.pend > 0
 
-    def usable(self):       # the application can still call into the object: through a reference it holds or under an
-        return self.x > 0 or self.i > 0 or self.e > 0     # outstanding enter (the group's own +1 keeps it alive)
+    def usable(self):       # the application can still call into the object through a reference it holds
+        return self.x > 0 or self.i > 0
 
     def legal(self, c):
         if c in "rR":
@@ -119,7 +128,7 @@ def model_calls(script):
     """list of (per harness op) lists of model calls (op, internal?, arg)"""
     sim, res = GSim(), []
     for c in tokens(script):
-        bi = 0 if sim.x > 0 else (1 if sim.i > 0 else 2)
+        bi = 0 if sim.x > 0 else 1
         if c[0] == "c":
             res.append([(6, bi, int(c[1]))])
         elif c == "a":
@@ -142,7 +151,7 @@ def model_calls(script):
 def gen_group_scripts(rng, n):
     corpus = ["c1fennlR",            # witness shape of seeded defect C17-1: two notifications pending when the group empties
               "ennnlR", "c2fennnnlrRR", "c3ftenlnR", "nnR", "c4fenRl", "eiRnnlI", "c5fTjRenlJ", "c6fiReenllnI", "eelnlR",
-              "c7fFeR" "l", "c8fCenlR", "c9faR", "enarR", "WRWiRWI", "c3fiWrRRRWI", "c1feRenll", "eRnl", "c2feRennelll", "c1ftwewlR", "rrRRenlennlR", "c2fenlenlennnlR"]
+              "c7fFeR" "l", "c8fCenlR", "c9faR", "enarR", "WRWiRWI", "c3fiWrRRRWI", "c1ftwewlR", "rrRRenlennlR", "c2fenlenlennnlR"]
     out = list(corpus)
     for _ in range(n):
         sim, s = GSim(), ""
@@ -603,7 +612,7 @@ def analyse_stress(text, label, rc, err):
     fails, traces = [], []
     stats = {"rounds": 0, "threads": 0, "wake_batches": 0, "max_batch": 0, "cas_retries": 0, "weak_cas_retries": 0,
              "dispose_in_release": 0, "dispose_in_leave": 0, "dispose_in_internal_release": 0, "dispose_in_notify": 0,
-             "calls_via_internal_reference": 0, "calls_under_an_outstanding_enter": 0, "retain_weak_calls": 0, "retain_weak_refused": 0, "max_concurrent_borrowers": 0}
+             "calls_via_internal_reference": 0, "retain_weak_calls": 0, "retain_weak_refused": 0, "max_concurrent_borrowers": 0}
     callspans = []
     for l in other:
         f = l.split()
@@ -631,10 +640,8 @@ def analyse_stress(text, label, rc, err):
         for e in tr:
             if e.kind == 100:
                 lastop, lastseq = e.a % 100, e.seq
-                if 100 <= e.a < 200:
+                if e.a >= 100:
                     stats["calls_via_internal_reference"] += 1
-                if e.a >= 200:
-                    stats["calls_under_an_outstanding_enter"] += 1
                 if lastop == 11:
                     stats["retain_weak_calls"] += 1
             if e.kind == 101 and lastop in (3, 5, 1, 9, 11):
